@@ -68,6 +68,9 @@ structure CInv (d : Dev) (s : S) : Prop where
   deadSt : s.dead = true → s.link = true ∧ s.st = .disc ∧ s.stage = .src ∧ s.inq = []
   fixedAbort : s.fixAbort = true
   fixedFirst : s.fixFirst = true
+  fixedUpd : s.fixUpd = true
+  fixedExtCmd : s.fixExtCmd = true
+  tsUp : s.link = true → s.stage = .up → s.connTs = true
 
 
 /-- closes a `CInv` goal for an explicitly computed state -/
@@ -86,7 +89,7 @@ def L : List Out := [.linkFailed, .cb .disconnected, .cb .lost]
 theorem err_core (d : Dev) (s : S) (h : CInv d s) (hl : s.link = true) (hd : s.dead = false) :
     CInv d (linkErrorCb s).1 ∧ phase (linkErrorCb s).1 = .idle ∧
     ((phase s = .req ∧ (linkErrorCb s).2 = E) ∨ (phase s ≠ .req ∧ phase s ≠ .idle ∧ (linkErrorCb s).2 = L)) := by
-  obtain ⟨h1, h2, h3, h4, h5, h6, h7, h8, h9, h10, h11, h12⟩ := h
+  obtain ⟨h1, h2, h3, h4, h5, h6, h7, h8, h9, h10, h11, h12, h13, h15, h14⟩ := h
   have h2' := h2 hl hd
   rw [linkErrorCb_eq]
   cases hs : s.st
@@ -102,7 +105,7 @@ theorem err_core (d : Dev) (s : S) (h : CInv d s) (hl : s.link = true) (hd : s.d
     · right; simp only [phase, hl, hs, L]; grind
 
 /-- core operation kinds -/
-inductive CK | openOk | openNo | openFail | deliver | work | err | close
+inductive CK | openOk | openNo | openFail | deliver | work | err | close | inject
   deriving DecidableEq, Repr
 
 def coreRun (d : Dev) (s : S) : CK → R
@@ -113,6 +116,7 @@ def coreRun (d : Dev) (s : S) : CK → R
   | .work => work s
   | .err => linkErrorCb s
   | .close => closeLink s
+  | .inject => injectPkt d (.upd 0) s
 
 /-- every possible (outputs, next phase) of a core operation, by the phase it starts in -/
 def shapes : CK → Ph → List (List Out × Ph)
@@ -132,6 +136,10 @@ def shapes : CK → Ph → List (List Out × Ph)
   | .close, .idle => [([.cb .disconnected], .idle)]
   | .close, .req => [([.cb .disconnected], .idle), (E ++ [.cb .disconnected], .idle)]
   | .close, _ => [([.cb .disconnected], .idle), (L ++ [.cb .disconnected], .idle)]
+  | .inject, .idle => [([], .idle)]
+  | .inject, .req => [([.cb .established], .est)]
+  | .inject, .con => [([], .con), ([.cb .fully], .ful)]
+  | .inject, ph => [([], ph)]
 
 theorem send_ok (r : Option Pkt) (s : S) (hl : s.link = true) (hd : s.dead = false) (ha : s.armed = false) :
     send r s = ({ s with inq := s.inq ++ r.toList }, []) := by
@@ -143,14 +151,14 @@ theorem send_fail (r : Option Pkt) (s : S) (hl : s.link = true) (hd : s.dead = f
 
 theorem deliver_init (d : Dev) (s : S) (h : CInv d s) (hl : s.link = true) (hd : s.dead = false) (hs : s.st = .init) :
     CInv d (deliver d s).1 ∧ ((deliver d s).2, phase (deliver d s).1) ∈ shapes .deliver .req := by
-  obtain ⟨h1, h2, h3, h4, h5, h6, h7, h8, h9, h10, h11, h12⟩ := h
+  obtain ⟨h1, h2, h3, h4, h5, h6, h7, h8, h9, h10, h11, h12, h13, h15, h14⟩ := h
   have h2' := h2 hl hd
   have h3' := h3 hl hd
   simp only [hs, true_and, reduceCtorEq, false_and, or_false] at h2'
   obtain ⟨hcb, hstage⟩ := h2'
   simp only [stageOk, hstage] at h3'
   obtain ⟨hinq, hpar⟩ := h3'
-  obtain ⟨st, link, initCb, inq, armed, stage, upd, exts, parToc, vals, isUpdated, connTs, logGot, extGot, dead, fa, ff, cl, fx⟩ := s
+  obtain ⟨st, link, initCb, inq, armed, stage, upd, exts, parToc, vals, isUpdated, connTs, logGot, extGot, dead, fa, ff, fu, fe, cl, fx⟩ := s
   simp only at *
   subst hl hd hs hcb hstage hinq hpar
   cases armed <;> cases hm : d.magic <;>
@@ -172,14 +180,14 @@ theorem deliver_chain (d : Dev) (s : S) (h : CInv d s) (hl : s.link = true) (hd 
     (hne : s.stage ≠ .ext) (hnu : s.stage ≠ .up) :
     CInv d (deliver d s).1 ∧ ((deliver d s).2, phase (deliver d s).1) ∈ shapes .deliver .est ∧
     (.cb .connected ∈ (deliver d s).2 → complete d (deliver d s).1) ∧ .cb .fully ∉ (deliver d s).2 := by
-  obtain ⟨h1, h2, h3, h4, h5, h6, h7, h8, h9, h10, h11, h12⟩ := h
+  obtain ⟨h1, h2, h3, h4, h5, h6, h7, h8, h9, h10, h11, h12, h13, h15, h14⟩ := h
   have h2' := h2 hl hd
   have h3' := h3 hl hd
   have h4' := h4 hne
   have h5' := h5 hnu
   have h7' := h7 hl ⟨hne, hnu⟩
   simp only [hs, true_and, reduceCtorEq, false_and, false_or] at h2'
-  obtain ⟨st, link, initCb, inq, armed, stage, upd, exts, parToc, vals, isUpdated, connTs, logGot, extGot, dead, fa, ff, cl, fx⟩ := s
+  obtain ⟨st, link, initCb, inq, armed, stage, upd, exts, parToc, vals, isUpdated, connTs, logGot, extGot, dead, fa, ff, fu, fe, cl, fx⟩ := s
   obtain ⟨q, locked, pat⟩ := upd
   simp only at *
   subst hl hd hs h2' h4' h7'
@@ -206,13 +214,13 @@ theorem deliver_chain (d : Dev) (s : S) (h : CInv d s) (hl : s.link = true) (hd 
 theorem deliver_ext (d : Dev) (s : S) (h : CInv d s) (hl : s.link = true) (hd : s.dead = false) (hs : s.st = .conn) (hst : s.stage = .ext) :
     CInv d (deliver d s).1 ∧ ((deliver d s).2, phase (deliver d s).1) ∈ shapes .deliver .est ∧
     (.cb .connected ∈ (deliver d s).2 → complete d (deliver d s).1) ∧ .cb .fully ∉ (deliver d s).2 := by
-  obtain ⟨h1, h2, h3, h4, h5, h6, h7, h8, h9, h10, h11, h12⟩ := h
+  obtain ⟨h1, h2, h3, h4, h5, h6, h7, h8, h9, h10, h11, h12, h13, h15, h14⟩ := h
   have h2' := h2 hl hd
   have h3' := h3 hl hd
   have h5' := h5 (by simp [hst])
   have h6' := h6 hl (by simp [hst])
   simp only [hs, true_and, reduceCtorEq, false_and, false_or] at h2'
-  obtain ⟨st, link, initCb, inq, armed, stage, upd, exts, parToc, vals, isUpdated, connTs, logGot, extGot, dead, fa, ff, cl, fx⟩ := s
+  obtain ⟨st, link, initCb, inq, armed, stage, upd, exts, parToc, vals, isUpdated, connTs, logGot, extGot, dead, fa, ff, fu, fe, cl, fx⟩ := s
   obtain ⟨q, locked, pat⟩ := upd
   simp only at *
   subst hl hd hs h2' hst h6'
@@ -243,15 +251,17 @@ theorem deliver_ext (d : Dev) (s : S) (h : CInv d s) (hl : s.link = true) (hd : 
 theorem deliver_up (d : Dev) (s : S) (h : CInv d s) (hl : s.link = true) (hd : s.dead = false) (hs : s.st = .conn) (hst : s.stage = .up) :
     CInv d (deliver d s).1 ∧ ((deliver d s).2, phase (deliver d s).1) ∈ shapes .deliver (phase s) ∧
     .cb .connected ∉ (deliver d s).2 ∧ (.cb .fully ∈ (deliver d s).2 → allVals d (deliver d s).1) := by
-  obtain ⟨h1, h2, h3, h4, h5, h6, h7, h8, h9, h10, h11, h12⟩ := h
+  obtain ⟨h1, h2, h3, h4, h5, h6, h7, h8, h9, h10, h11, h12, h13, h15, h14⟩ := h
   have h2' := h2 hl hd
   have h3' := h3 hl hd
   have h4' := h4 (by simp [hst])
   simp only [hs, true_and, reduceCtorEq, false_and, false_or] at h2'
-  obtain ⟨st, link, initCb, inq, armed, stage, upd, exts, parToc, vals, isUpdated, connTs, logGot, extGot, dead, fa, ff, cl, fx⟩ := s
+  obtain ⟨st, link, initCb, inq, armed, stage, upd, exts, parToc, vals, isUpdated, connTs, logGot, extGot, dead, fa, ff, fu, fe, cl, fx⟩ := s
   obtain ⟨q, locked, pat⟩ := upd
   simp only at *
   subst hl hd hs h2' hst h4'
+  have hts : connTs = true := h14 rfl rfl
+  subst hts h13
   simp only [stageOk, updOk] at h3'
   obtain ⟨hlog, hpar, hext, hu1, hu2⟩ := h3'
   cases locked
@@ -263,7 +273,7 @@ theorem deliver_up (d : Dev) (s : S) (h : CInv d s) (hl : s.link = true) (hd : s
     · cases isUpdated <;> simp [shapes, phase]
   · obtain ⟨id, hp, hi⟩ := hu1 rfl
     subst hp hi
-    simp only [deliver, valPacket, emit, andThen, pureS]
+    simp only [deliver, valPacket, paramUpdated, emit, andThen, pureS]
     by_cases hid : id < parToc <;> cases isUpdated <;> simp [hid, shapes, phase]
     all_goals (try split)
     all_goals (first
@@ -312,8 +322,8 @@ theorem deliver_core (d : Dev) (s : S) (h : CInv d s) :
 theorem work_core (d : Dev) (s : S) (h : CInv d s) :
     CInv d (work s).1 ∧ ((work s).2, phase (work s).1) ∈ shapes .work (phase s) ∧
     .cb .connected ∉ (work s).2 ∧ .cb .fully ∉ (work s).2 := by
-  obtain ⟨h1, h2, h3, h4, h5, h6, h7, h8, h9, h10, h11, h12⟩ := h
-  obtain ⟨st, link, initCb, inq, armed, stage, upd, exts, parToc, vals, isUpdated, connTs, logGot, extGot, dead, fa, ff, cl, fx⟩ := s
+  obtain ⟨h1, h2, h3, h4, h5, h6, h7, h8, h9, h10, h11, h12, h13, h15, h14⟩ := h
+  obtain ⟨st, link, initCb, inq, armed, stage, upd, exts, parToc, vals, isUpdated, connTs, logGot, extGot, dead, fa, ff, fu, fe, cl, fx⟩ := s
   obtain ⟨q, locked, pat⟩ := upd
   simp only at *
   cases link
@@ -397,8 +407,8 @@ def ckOf : Drv → CK
 theorem open_core (d : Dev) (s : S) (f : Drv) (h : CInv d s) (hl : s.link = false ∨ s.dead = true) :
     CInv d (openLink f s).1 ∧
     ((openLink f s).2, phase (openLink f s).1) ∈ shapes (ckOf f) (phase s) := by
-  obtain ⟨h1, h2, h3, h4, h5, h6, h7, h8, h9, h10, h11, h12⟩ := h
-  obtain ⟨st, link, initCb, inq, armed, stage, upd, exts, parToc, vals, isUpdated, connTs, logGot, extGot, dead, fa, ff, cl, fx⟩ := s
+  obtain ⟨h1, h2, h3, h4, h5, h6, h7, h8, h9, h10, h11, h12, h13, h15, h14⟩ := h
+  obtain ⟨st, link, initCb, inq, armed, stage, upd, exts, parToc, vals, isUpdated, connTs, logGot, extGot, dead, fa, ff, fu, fe, cl, fx⟩ := s
   obtain ⟨q, locked, pat⟩ := upd
   simp only at *
   cases dead
@@ -420,8 +430,8 @@ theorem open_core (d : Dev) (s : S) (f : Drv) (h : CInv d s) (hl : s.link = fals
 
 theorem close_core (d : Dev) (s : S) (h : CInv d s) :
     CInv d (closeLink s).1 ∧ ((closeLink s).2, phase (closeLink s).1) ∈ shapes .close (phase s) := by
-  obtain ⟨h1, h2, h3, h4, h5, h6, h7, h8, h9, h10, h11, h12⟩ := h
-  obtain ⟨st, link, initCb, inq, armed, stage, upd, exts, parToc, vals, isUpdated, connTs, logGot, extGot, dead, fa, ff, cl, fx⟩ := s
+  obtain ⟨h1, h2, h3, h4, h5, h6, h7, h8, h9, h10, h11, h12, h13, h15, h14⟩ := h
+  obtain ⟨st, link, initCb, inq, armed, stage, upd, exts, parToc, vals, isUpdated, connTs, logGot, extGot, dead, fa, ff, fu, fe, cl, fx⟩ := s
   obtain ⟨q, locked, pat⟩ := upd
   simp only at *
   cases link
@@ -458,6 +468,78 @@ theorem phase_linked_aux (d : Dev) (c : S) (h : CInv d c) : (phase c).linked = (
         · rfl
     · obtain ⟨_, hst, _, _⟩ := h.deadSt hd
       simp [phase, hl, hst, Ph.linked]
+
+/-! ### extra packets: unsolicited value-updated notifications, duplicated / late read replies -/
+
+theorem inject_core (d : Dev) (inj : Inj) (s : S) (h : CInv d s)
+    (hdup : ∀ id, inj = .dupVal id → s.upd.pat ≠ some id) :
+    CInv d (injectPkt d inj s).1 ∧ ((injectPkt d inj s).2, phase (injectPkt d inj s).1) ∈ shapes .inject (phase s) ∧
+    .cb .connected ∉ (injectPkt d inj s).2 ∧ (.cb .fully ∈ (injectPkt d inj s).2 → allVals d (injectPkt d inj s).1) := by
+  obtain ⟨h1, h2, h3, h4, h5, h6, h7, h8, h9, h10, h11, h12, h13, h15, h14⟩ := h
+  obtain ⟨st, link, initCb, inq, armed, stage, upd, exts, parToc, vals, isUpdated, connTs, logGot, extGot, dead, fa, ff, fu, fe, cl, fx⟩ := s
+  obtain ⟨q, locked, pat⟩ := upd
+  simp only at *
+  subst h9 h11 h12 h13 h15
+  cases link
+  · simp [injectPkt, pureS, shapes, phase]
+    cinv_tac
+  cases dead
+  case true =>
+    obtain ⟨_, hst, hsg, hinq⟩ := h10 rfl
+    subst hst hsg hinq
+    simp [injectPkt, pureS, shapes, phase]
+    cinv_tac
+  have h2' := h2 rfl rfl
+  have h3' := h3 rfl rfl
+  rcases h2' with ⟨x, y, z⟩ | ⟨x, y⟩
+  · -- first packet of the attempt: the table is still empty
+    subst x y z
+    simp only [stageOk] at h3'
+    obtain ⟨hq, hp0⟩ := h3'
+    subst hq hp0
+    cases inj with
+    | upd id =>
+      simp [injectPkt, paramUpdated, emit, andThen, pureS, shapes, phase]
+      cinv_tac
+    | dupVal id =>
+      have := hdup id rfl
+      simp [injectPkt, valPacket, this, emit, andThen, pureS, shapes, phase]
+      cinv_tac
+  · subst x y
+    cases inj with
+    | dupVal id =>
+      have := hdup id rfl
+      simp only [injectPkt, valPacket, this, emit, andThen, pureS, Bool.false_eq_true, if_false, not_false_eq_true,
+        or_self, not_true_eq_false, List.append_nil, List.not_mem_nil, false_imp_iff, and_true]
+      refine ⟨?_, ?_⟩
+      · cinv_tac
+      · by_cases hu : stage = .up <;> cases isUpdated <;> simp [shapes, phase, hu]
+    | upd id =>
+      by_cases hu : stage = .up
+      · subst hu
+        have hts : connTs = true := h14 rfl rfl
+        subst hts
+        simp only [stageOk, updOk] at h3'
+        obtain ⟨hlog, hpar, hext, hu1, hu2⟩ := h3'
+        simp only [injectPkt, paramUpdated, emit, andThen, pureS]
+        by_cases hid : id < parToc <;> cases isUpdated <;> simp [hid, shapes, phase]
+        all_goals (try split)
+        all_goals (first
+          | cinv_tac
+          | (refine ⟨?_, ?_⟩ <;> first
+              | cinv_tac
+              | (simp [shapes, phase, allVals, List.all_eq_true] at * <;> grind)))
+      · have hts : connTs = false := by
+          cases hc : connTs
+          · rfl
+          · exact absurd (h8 hc).2 hu
+        subst hts
+        have hiu := h6 rfl hu
+        subst hiu
+        simp only [injectPkt, paramUpdated, emit, andThen, pureS, Bool.false_eq_true, if_false, not_false_eq_true, or_self,
+          not_true_eq_false, Bool.not_true, Bool.or_false, Bool.false_and, Bool.and_false, List.append_nil, List.nil_append,
+          List.not_mem_nil, false_imp_iff, and_true]
+        split <;> (refine ⟨?_, ?_⟩ <;> first | cinv_tac | (simp [shapes, phase, hu]; done) | (cases stage <;> simp_all [shapes, phase]))
 
 /-! ### close / link error from inside a callback, during the dispatch of a packet -/
 
@@ -510,7 +592,7 @@ theorem act_core (d : Dev) (a : Act) (s : S) (h : CInv d s) :
 
 /-- the ghost counter of log entries is unconstrained once the link is gone -/
 theorem cinv_logGot (d : Dev) (s : S) (n : Nat) (h : CInv d s) (hl : s.link = false) : CInv d { s with logGot := n } := by
-  obtain ⟨h1, h2, h3, h4, h5, h6, h7, h8, h9, h10, h11, h12⟩ := h
+  obtain ⟨h1, h2, h3, h4, h5, h6, h7, h8, h9, h10, h11, h12, h13, h15, h14⟩ := h
   constructor <;> simp only <;> first | assumption | (intro hx; rw [hl] at hx; cases hx)
 
 theorem actNow_link_false (a : Act) (s : S) (hl : s.link = true) (hd : s.dead = false) : (actNow a s).1.link = false := by
@@ -524,9 +606,9 @@ theorem popAct_core (d : Dev) (a : Act) (s : S) (p : Pkt) (rest : List Pkt) (h :
     CInv d (popInitial s rest >>> actNow a).1 ∧
     ((popInitial s rest >>> actNow a).2, phase (popInitial s rest >>> actNow a).1) ∈
       seqShapes (popShapes (phase s)) (actShapes a) := by
-  obtain ⟨h1, h2, h3, h4, h5, h6, h7, h8, h9, h10, h11, h12⟩ := h
+  obtain ⟨h1, h2, h3, h4, h5, h6, h7, h8, h9, h10, h11, h12, h13, h15, h14⟩ := h
   have h2' := h2 hl hd
-  obtain ⟨st, link, initCb, inq, armed, stage, upd, exts, parToc, vals, isUpdated, connTs, logGot, extGot, dead, fa, ff, cl, fx⟩ := s
+  obtain ⟨st, link, initCb, inq, armed, stage, upd, exts, parToc, vals, isUpdated, connTs, logGot, extGot, dead, fa, ff, fu, fe, cl, fx⟩ := s
   obtain ⟨q, locked, pat⟩ := upd
   simp only at *
   subst hl hd hq h9 h11
@@ -547,9 +629,9 @@ theorem lateAct_core (d : Dev) (a : Act) (s : S) (p : Pkt) (rest : List Pkt) (h 
     CInv d (actNow a { s with inq := rest }).1 ∧
     ((actNow a { s with inq := rest }).2, phase (actNow a { s with inq := rest }).1) ∈
       seqShapes [([], phase s)] (actShapes a) := by
-  obtain ⟨h1, h2, h3, h4, h5, h6, h7, h8, h9, h10, h11, h12⟩ := h
+  obtain ⟨h1, h2, h3, h4, h5, h6, h7, h8, h9, h10, h11, h12, h13, h15, h14⟩ := h
   have h2' := h2 hl hd
-  obtain ⟨st, link, initCb, inq, armed, stage, upd, exts, parToc, vals, isUpdated, connTs, logGot, extGot, dead, fa, ff, cl, fx⟩ := s
+  obtain ⟨st, link, initCb, inq, armed, stage, upd, exts, parToc, vals, isUpdated, connTs, logGot, extGot, dead, fa, ff, fu, fe, cl, fx⟩ := s
   obtain ⟨q, locked, pat⟩ := upd
   simp only at *
   subst hl hd hq h9 h11 h12 hi
@@ -631,6 +713,7 @@ def coreOf (d : Dev) (c : S) (isOpen : Bool) : Op → R
   | .arm => ({ c with armed := true }, [])
   | .close => closeLink c
   | .deliverAct pos a => deliverAct d pos a c
+  | .inject inj => injectPkt d inj c
   | .syncOpen f => if isOpen then (c, []) else openLink f c
   | .syncClose => if isOpen then closeLink c else (c, [])
 
@@ -671,6 +754,7 @@ def shapesOp (op : Op) (ph : Ph) (isOpen : Bool) : List (List Out × Ph) :=
   | .arm => [([], ph)]
   | .close => shapes .close ph
   | .deliverAct _ a => shapesAct a ph
+  | .inject _ => shapes .inject ph
   | .syncOpen f => if isOpen then [([], ph)] else shapes (ckOf f) ph
   | .syncClose => if isOpen then shapes .close ph else [([], ph)]
 
@@ -684,6 +768,7 @@ def allowedW (w : Wrap) (ph : Ph) : Op → Bool
   | .deliver => true
   | .work => true
   | .deliverAct _ _ => true
+  | .inject _ => true
 
 /-- one operation: the wrapper invariant is kept and the specification automaton accepts the outputs, moving
 from the abstraction of the old state to the abstraction of the new one -/
@@ -700,6 +785,13 @@ theorem check_all (a b c e f g h i j : Bool) (ph : Ph) (op : Op) :
   | deliverAct pos act => cases pos <;> cases act <;> cases ph <;> revert a b c e f g h i j <;> decide
   | «open» dv => cases dv <;> cases ph <;> revert a b c e f g h i j <;> decide
   | syncOpen dv => cases dv <;> cases ph <;> revert a b c e f g h i j <;> decide
+  | inject inj =>
+    -- nothing in the check depends on which packet is injected
+    intro h1 h2
+    have key : ∀ (a b c e f g h i j : Bool) (ph : Ph), wOk ⟨a, b, c, e, f, g, h, i, j⟩ ph = true →
+        checkOp ⟨a, b, c, e, f, g, h, i, j⟩ ph (.inject (.upd 0)) = true := by
+      intro a b c e f g h i j ph; cases ph <;> revert a b c e f g h i j <;> decide
+    exact key a b c e f g h i j ph h1
   | _ => cases ph <;> revert a b c e f g h i j <;> decide
 
 
@@ -724,13 +816,14 @@ theorem phase_linked {d : Dev} {c : S} (h : CInv d c) : (phase c).linked = (c.li
     · obtain ⟨_, hst, _, _⟩ := h.deadSt hd
       simp [phase, hl, hst, Ph.linked]
 
-theorem allowed_abs {d : Dev} {s : Sys} (h : SInv d s) (op : Op) (ha : allowed s op = true) :
+theorem allowed_abs {d : Dev} {s : Sys} (h : SInv d s) (op : Op) (ha : allowed d s op = true) :
     allowedW s.w (phase s.c) op = true := by
   have hp := phase_linked h.core
   cases op <;> simp only [allowed, allowedW, hp] at * <;> simp_all
 
-theorem shapes_no_conn (k : CK) (ph : Ph) (hk : k ≠ .deliver) :
+theorem shapes_no_conn (k : CK) (ph : Ph) (hk : k ≠ .deliver ∧ k ≠ .inject) :
     ∀ sh ∈ shapes k ph, Out.cb .connected ∉ sh.1 ∧ Out.cb .fully ∉ sh.1 := by
+  obtain ⟨hk1, hk2⟩ := hk
   cases k <;> cases ph <;> first | contradiction | decide
 
 /-- operations in which an in-callback action follows the packet handling (the state the callbacks of the packet saw
@@ -739,7 +832,7 @@ def Op.isAct : Op → Bool
   | .deliverAct _ _ => true
   | _ => false
 
-theorem core_shape (d : Dev) (s : Sys) (op : Op) (h : SInv d s) (ha : allowed s op = true) :
+theorem core_shape (d : Dev) (s : Sys) (op : Op) (h : SInv d s) (ha : allowed d s op = true) :
     CInv d (coreOf d s.c s.w.isOpen op).1 ∧
     ((coreOf d s.c s.w.isOpen op).2, phase (coreOf d s.c s.w.isOpen op).1) ∈ shapesOp op (phase s.c) s.w.isOpen ∧
     (op.isAct = false → .cb .connected ∈ (coreOf d s.c s.w.isOpen op).2 → complete d (coreOf d s.c s.w.isOpen op).1) ∧
@@ -754,7 +847,7 @@ theorem core_shape (d : Dev) (s : Sys) (op : Op) (h : SInv d s) (ha : allowed s 
     · rw [hy] at hna; cases hna
     · exact hy.2
   have hc := h.core
-  have noc : ∀ (k : CK) (r : R), k ≠ .deliver → (r.2, phase r.1) ∈ shapes k (phase s.c) →
+  have noc : ∀ (k : CK) (r : R), (k ≠ .deliver ∧ k ≠ .inject) → (r.2, phase r.1) ∈ shapes k (phase s.c) →
       (.cb .connected ∈ r.2 → complete d r.1) ∧ (.cb .fully ∈ r.2 → allVals d r.1) := by
     intro k r hk hm
     have := shapes_no_conn k (phase s.c) hk _ hm
@@ -795,7 +888,7 @@ theorem core_shape (d : Dev) (s : Sys) (op : Op) (h : SInv d s) (ha : allowed s 
         exact noc .err _ (by simp) hm
     | arm =>
       refine ⟨?_, ?_, by simp [coreOf], by simp [coreOf]⟩
-      · obtain ⟨h1, h2, h3, h4, h5, h6, h7, h8, h9, h10, h11, h12⟩ := hc
+      · obtain ⟨h1, h2, h3, h4, h5, h6, h7, h8, h9, h10, h11, h12, h13, h15, h14⟩ := hc
         constructor <;> simp only [coreOf] <;> first | assumption | (intro hl; have := h3 hl; simpa [stageOk, updOk, extOk] using this)
       · simp only [coreOf, shapesOp, List.mem_singleton]; rfl
     | close =>
@@ -817,6 +910,15 @@ theorem core_shape (d : Dev) (s : Sys) (op : Op) (h : SInv d s) (ha : allowed s 
         simp only [coreOf, shapesOp, if_true]
         exact ⟨this.1, this.2, noc .close _ (by simp) this.2⟩
     | deliverAct pos a => simp [Op.isAct] at hact
+    | inject inj =>
+      have hdup : ∀ id, inj = .dupVal id → s.c.upd.pat ≠ some id := by
+        intro id hid
+        subst hid
+        simp only [allowed, ne_eq, decide_eq_true_eq, Bool.and_eq_true, decide_not] at ha
+        simpa using ha.2
+      have := inject_core d inj s.c hc hdup
+      simp only [coreOf, shapesOp]
+      exact ⟨this.1, this.2.1, fun x => absurd x this.2.2.1, this.2.2.2⟩
   exact ⟨key.1, key.2.1, Or.inr ⟨key.2.2.1, key.2.2.2⟩⟩
 
 
@@ -825,7 +927,7 @@ theorem check_all' (w : Wrap) (ph : Ph) (op : Op) (h : wOk w ph = true) (ha : al
   obtain ⟨a, b, c, e, f, g, h', i, j⟩ := w
   exact check_all a b c e f g h' i j ph op h ha
 
-theorem step_sound (d : Dev) (s : Sys) (op : Op) (h : SInv d s) (ha : allowed s op = true) :
+theorem step_sound (d : Dev) (s : Sys) (op : Op) (h : SInv d s) (ha : allowed d s op = true) :
     SInv d (step d s op).1 ∧
     (wfOp (absW (phase s.c) s.w) op).bind (wfOuts · (step d s op).2) =
       some (absW (phase (step d s op).1.c) (step d s op).1.w) := by
@@ -910,7 +1012,7 @@ theorem reopen_eq (d : Dev) (c : S) (h : CInv d c) (hl : c.link = false) (ha : c
     (openLink .ok c).1 = { (openLink .ok S.init).1 with upd := { q := [], locked := false, pat := c.upd.pat },
                                                           cbLate := c.cbLate || !c.initCb } ∧
     (openLink .ok c).2 = (openLink .ok S.init).2 := by
-  obtain ⟨h1, h2, h3, h4, h5, h6, h7, h8, h9, h10, h11, h12⟩ := h
+  obtain ⟨h1, h2, h3, h4, h5, h6, h7, h8, h9, h10, h11, h12, h13, h15, h14⟩ := h
   obtain ⟨x1, x2, x3, x4, x5⟩ := h1 hl
   have hd : c.dead = false := by
     cases hc : c.dead
@@ -920,10 +1022,10 @@ theorem reopen_eq (d : Dev) (c : S) (h : CInv d c) (hl : c.link = false) (ha : c
     cases hc : c.connTs
     · rfl
     · have := (h8 hc).1; rw [hl] at this; cases this
-  obtain ⟨st, link, initCb, inq, armed, stage, upd, exts, parToc, vals, isUpdated, connTs, logGot, extGot, dead, fa, ff, cl, fx⟩ := c
+  obtain ⟨st, link, initCb, inq, armed, stage, upd, exts, parToc, vals, isUpdated, connTs, logGot, extGot, dead, fa, ff, fu, fe, cl, fx⟩ := c
   obtain ⟨q, locked, pat⟩ := upd
   simp only at *
-  subst hl hd ha x1 x2 x3 x4 x5 hts h9 h11 h12
+  subst hl hd ha x1 x2 x3 x4 x5 hts h9 h11 h12 h13 h15
   simp [openLink, send, emit, andThen, pureS, S.init]
   decide
 
